@@ -65,11 +65,13 @@ Inductive oline :=
   | OValid (file : string) (idx : nat)     (* "<file>/<idx> is valid." *)
   | OInvalid (file : string) (idx : nat)   (* "<file>/<idx> is invalid due to:" + its messages *)
   | OPath (text : string) (j : option nat) (* one yaml-paths result line: its text, then (for a container value) the JSON of object j *)
-  | ODump (json : bool) (docs : list nat). (* the document(s) dumped to STDOUT *)
+  | ODump (json : bool) (docs : list nat)  (* the document(s) dumped to STDOUT *)
+  | ODumpPartial.                          (* whatever the YAML dumper had written to STDOUT when it raised *)
 
 Inductive effect :=
   | EBackup                                (* remove a stale <target>.bak, copy2(target, target.bak) *)
-  | EWrite (json : bool) (docs : list nat). (* open(target, 'w') and dump *)
+  | EWrite (json : bool) (docs : list nat)  (* open(target, 'w') and dump *)
+  | ERestore.                              (* open(target, 'w'), a failing dump, then the original bytes copied back *)
 
 Record crun := mkrun { r_status : status; r_out : list oline; r_fx : list effect }.
 
@@ -418,7 +420,8 @@ Record merge_args := mkmerge {
   ma_backup : bool;
   ma_format : docfmt;
   ma_mode : mdmode;
-  ma_out_ext : string      (* Path(final output name).suffix.lower(), "" when there is none *)
+  ma_out_ext : string;     (* Path(final output name).suffix.lower(), "" when there is none *)
+  ma_config_err : option string   (* the class MergerConfig(log, args) raises on the --config file, if any *)
 }.
 
 (* Oracles about documents (states are abstract ids):
@@ -620,10 +623,11 @@ Section Merge.
           else mkrun (Exit 0) (vb ++ [ODump is_json dumps]) fx
     end.
 
+  (* [ma_config_err a] = how MergerConfig(log, args) - configparser reading the --config file - ends *)
   Definition cli_merge_main (estr : nat) (a : merge_args) (tty : bool) (srcs : list source) (stdin_src : source) : crun :=
     let '(nerr, vlines, n') := merge_validate a (List.length srcs) (map s_name srcs) tty in
     if negb (Nat.eqb nerr 0) then mkrun (Exit 1) vlines []
-    else
+    else match ma_config_err a with Some c => mkrun (Uncaught (UCrash c)) vlines [] | None =>
       let to_file := nonempty (ma_overwrite a) || nonempty (ma_output a) in
       let crash u nh := mkrun (Uncaught u) (vlines ++ hints nh) [] in
       match merge_loop estr (ma_mode a) srcs [] 0 false 0 with
@@ -668,7 +672,8 @@ Section Merge.
                   else mkrun (Exit st3) (vlines ++ hints nh3) []
               end
           end
-      end.
+      end
+    end.
 End Merge.
 
 (* ------------------------------------------------------------------ *)
@@ -777,27 +782,68 @@ Definition set_after_change (k : change_kind) (c : change_res) : lres nat + stat
   | ChCrash u => inr (Uncaught u)
   end.
 
-(* write_output_document (+ save_to_file); [file] = args.yaml_file after defaulting to "-" *)
-Definition set_write (a : set_args) (n : noise) (file : string) (flow_root : bool) (d : nat) : crun :=
+(* write_output_document (+ save_to_file); [file] = args.yaml_file after defaulting to "-";
+   [dump_err] = how ruamel's dump of the document ends (None = it produces the text, Some cls = it
+   raises cls, e.g. TypeError for a tagged non-string scalar).  Only the YAML dumper is given a way
+   to fail: json.dump(jsonify_yaml_data(..)) has no known failing input and stays a total oracle;
+   [jd] = the document that JSON text reloads to (jsonify drops tags, turns dates into text);
+   [yd] = the document the YAML text reloads to (d itself whenever ruamel's emitter is faithful). *)
+Definition set_write (a : set_args) (n : noise) (file : string) (flow_root : bool) (dump_err : option string)
+           (yd jd : nat) (d : nat) : crun :=
   let as_yaml := negb flow_root && negb (sa_is_json_ext a) in
   let vb := if sa_backup a then log_verbose n [OVerb] else [] in       (* "Saving a backup of ..." *)
   let fx := if sa_backup a then [EBackup] else [] in
+  let err := if as_yaml then dump_err else None in
   if is_dash file
-  then mkrun (Exit 0) (vb ++ [ODump (negb as_yaml) [d]]) fx
-  else mkrun (Exit 0) (vb ++ log_verbose n [OVerb]) (fx ++ [EWrite (negb as_yaml) [d]]).
+  then match err with
+       | None => mkrun (Exit 0) (vb ++ [ODump (negb as_yaml) [if as_yaml then yd else jd]]) fx
+       | Some c => mkrun (Uncaught (UCrash c)) (vb ++ [ODumpPartial]) fx   (* yaml.dump(yaml_data, sys.stdout) raises half way *)
+       end
+  else match err with
+       | None => mkrun (Exit 0) (vb ++ log_verbose n [OVerb]) (fx ++ [EWrite (negb as_yaml) [if as_yaml then yd else jd]])
                                                                        (* "Writing changed data as ..." *)
+       | Some c =>
+           (* fix: save_to_yaml_file's `except Exception`: the original bytes are copied back, the
+              backup made a moment ago is removed again (a stale .bak is lost with it), re-raise *)
+           mkrun (Uncaught (UCrash c)) (vb ++ log_verbose n [OVerb]) [ERestore]
+       end.
 
 (* Inputs: [load] the document (None = empty file); [built] = Nodes.build_next_node for an
    empty document; [gather] = processor.get_nodes(change_path, mustexist=True);
    [saveto d] and [change d] = the library steps applied to state d;
-   [flow d] = docroot_is_flow of the state *)
+   [flow d] = docroot_is_flow of the state; [dump_fail d] = how the YAML dump of the state ends;
+   [jsonview d] = the state after jsonify_yaml_data and the JSON round trip;
+   [yamlview d] = what the YAML text of the state loads back to *)
 Section SetTool.
   Variable built : lres nat.
   Variable saveto : nat -> lres nat.
   Variable change : nat -> change_res.
   Variable flow : nat -> bool.
+  Variable dump_fail : nat -> option string.
+  Variable jsonview : nat -> nat.
+  Variable yamlview : nat -> nat.
+  Variable change_verb : nat -> nat.      (* logger.verbose messages the change call emits on state d *)
 
   Definition set_must_exist (a : set_args) : bool := sa_mustexist a || sa_delete a || sa_saveto a.
+
+  (* "Applying changes": the if/elif chain, then write_output_document; [out] = the lines so far *)
+  Definition set_finish (a : set_args) (n : noise) (file : string) (out : list oline) (d : nat) : crun :=
+    let w := set_write a n file (flow d) (dump_fail d) (yamlview d) (jsonview d) d in
+    mkrun (r_status w) (out ++ r_out w) (r_fx w).
+  Definition set_change_tail (a : set_args) (n : noise) (file : string) (out2 : list oline) (d1 : nat) : crun :=
+    let k := set_change_kind a in
+    match k with
+    | ChNothing => set_finish a n file out2 d1
+    | _ =>
+        (* the library's own logger.verbose messages ("Encrypting value(s) ...") come out
+           while the call runs, however it ends *)
+        let out3 := out2 ++ log_verbose n (repeat OVerb (change_verb d1)) in
+        match set_after_change k (change d1) with
+        | inr s => mkrun s out3 []
+        | inl (LRaise u) => mkrun (Uncaught u) out3 []
+        | inl (LOk d2) => set_finish a n file out3 d2
+        end
+    end.
 
   (* the tail of main() once the nodes are gathered *)
   Definition set_apply (a : set_args) (n : noise) (file : string) (d0 : nat) (ns : list setnode) : crun :=
@@ -821,32 +867,21 @@ Section SetTool.
         match saved with
         | inr r => r
         | inl (d1, out1) =>
-            let out2 := out1 ++ log_verbose n [OVerb] in               (* "Applying changes to ..." *)
-            let k := set_change_kind a in
-            let finish d := let w := set_write a n file (flow d) d in
-                            mkrun (r_status w) (out2 ++ r_out w) (r_fx w) in
-            match k with
-            | ChNothing => finish d1
-            | _ =>
-                match set_after_change k (change d1) with
-                | inr s => mkrun s out2 []
-                | inl (LRaise u) => mkrun (Uncaught u) out2 []
-                | inl (LOk d2) => finish d2
-                end
-            end
+            set_change_tail a n file (out1 ++ log_verbose n [OVerb]) d1   (* "Applying changes to ..." *)
         end
     end.
 
-  Definition cli_set_main (a : set_args) (tty : bool) (valfile_ok : bool) (load : raw1)
+  (* [valfile_err] = how open(args.file) + read() ends: None = the text, Some cls = it raises cls *)
+  Definition cli_set_main (a : set_args) (tty : bool) (valfile_err : option string) (load : raw1)
              (gather : lres (list setnode)) : crun :=
     let nerr := set_validate_errors a tty in
     if negb (Nat.eqb nerr 0) then mkrun (Exit 1) (hints nerr) []
     else
       let n := if set_in_stream a tty then mute_unless_forced (sa_noise a) else sa_noise a in
       (* the replacement value from --file is read before the document *)
-      if negb (value_given a) && negb (sa_stdin a) && sa_valfile a && negb valfile_ok
-      then mkrun (Uncaught (UCrash "FileNotFoundError")) [] []
-      else
+      match (if negb (value_given a) && negb (sa_stdin a) && sa_valfile a then valfile_err else None) with
+      | Some c => mkrun (Uncaught (UCrash c)) [] []
+      | None =>
         (* the document: the named file, else a waiting STDIN *)
         let consumed_by_value := negb (value_given a) && sa_stdin a in
         let reads_doc := nonempty (sa_file a)
@@ -868,7 +903,8 @@ Section SetTool.
                 | LRaise u => mkrun (Uncaught u) [] []
                 end
             end
-        end.
+        end
+      end.
 End SetTool.
 
 (* ------------------------------------------------------------------ *)
